@@ -6493,7 +6493,7 @@ bool SoPlexBase<R>::setRealParam(const RealParam param, const Real value, const 
    if(!init && value == realParam(param))
       return true;
 
-   if(value < _currentSettings->realParam.lower[param]
+   if(isnan(value) || value < _currentSettings->realParam.lower[param]
          || value > _currentSettings->realParam.upper[param])
       return false;
 
